@@ -86,11 +86,18 @@ theorem failed_deposit_refunded (p : Params) (s : St) (t : PTx) (v : Val) (hk : 
     simp [hk, hg, hx]
   rw [this]; exact ⟨rfl, total_credit _ _ _⟩
 
-/-- intended: every take-effect handler moves exactly the detained value out of "pending" (not proved in general; the two
-refund branches above are) -/
+/-- take-effect handlers (create, update, deposit incl. refund, withdraw into the queue, change status, settle,
+delegation add incl. refunds, delegation settle): exactly the detained value leaves "pending" — into the validator's
+stake or back to the sender. Partial: delegation-sub (kind 17) is not covered. -/
+theorem takeEffect_conserves_partial (p : Params) (s : St) (t : PTx) (h17 : t.kind ≠ 17)
+    (hc : t.kind = 1 → getVal s.vals t.val = none) (hv : t.kind = 16 → 0 ≤ t.value) (hok : (takeEffect p s t).2 = .ok) :
+    total (takeEffect p s t).1 = total s + (if detains t.kind then t.value else 0) :=
+  takeEffect_partial p s t h17 hc hv hok
+
+/-- the full statement (all kinds) -/
 def takeEffect_statement : Prop :=
-  ∀ (p : Params) (s : St) (t : PTx), (t.kind = 1 → (getVal s.vals t.val).isNone) → (takeEffect p s t).2 = .ok →
-    total (takeEffect p s t).1 = total s + (if detains t.kind then t.value else 0)
+  ∀ (p : Params) (s : St) (t : PTx), (t.kind = 1 → getVal s.vals t.val = none) → (t.kind = 16 → 0 ≤ t.value) →
+    (takeEffect p s t).2 = .ok → total (takeEffect p s t).1 = total s + (if detains t.kind then t.value else 0)
 
 /-- intended: penalties arrive in the penalty account — doPenalize/takePenalty conserve when handed the stored object
 (not proved; covered by correspondence and the oracle) -/
